@@ -388,7 +388,8 @@ def include(state, included_file_path: str):
         )
 
     try:
-        with open(include_path, "r") as f:
+        # Like the files named on the command line, whatever the locale says
+        with open(include_path, "r", encoding="utf-8") as f:
             code = f.read()
     except FileNotFoundError:
         reports.error(
